@@ -56,8 +56,9 @@ func c09Check(ctx *vfCtx, c c09Case) {
 			trees = append(trees, t)
 		}
 		if why := raUnjudged(raBuildState(c.Version, trees)); why != "" {
-			ctx.Unjudged(why)
-			return
+			// a state the reference rules do not judge (an undecodable power-levels / join-rules / create
+			// event): WHICH verdict is right is not judged, that it is one verdict is
+			ctx.Class("state-not-judged-by-the-reference")
 		}
 		rooms = append(rooms, pdus)
 		roomTrees = append(roomTrees, trees)
@@ -89,6 +90,60 @@ func c09Check(ctx *vfCtx, c c09Case) {
 		}
 		return false
 	}
+	// A list may name one (type, state_key) twice; the provider keeps the later event (AddEvent's
+	// documented replacement), so the STATE is the list with earlier duplicates removed. The legs below
+	// work on that state; the list as drawn is evaluated once more at the end (replaced entries must
+	// not change the verdict).
+	lastOnly := func(list []PDU) []PDU {
+		last := map[StateKeyTuple]int{}
+		for i, e := range list {
+			last[StateKeyTuple{e.Type(), *e.StateKey()}] = i
+		}
+		var out []PDU
+		for i, e := range list {
+			if last[StateKeyTuple{e.Type(), *e.StateKey()}] == i {
+				out = append(out, e)
+			}
+		}
+		return out
+	}
+	for i := range rooms {
+		for _, e := range rooms[i] {
+			if e.StateKey() == nil {
+				ctx.Unjudged("generator: state list holds a non-state event")
+				return
+			}
+		}
+	}
+	asDrawn := full
+	// An event of ANOTHER room in a slot the event does not need is left out of the state: Allowed
+	// refuses a provider holding events of several rooms as malformed input before it looks at the
+	// event, which is its documented entry condition and not a dependence on un-needed state of the
+	// room. A foreign event in a NEEDED slot stays, in every leg.
+	{
+		var kept []PDU
+		for _, e := range lastOnly(full) {
+			if e.RoomID().String() != final.RoomID().String() && !isNeeded(e) {
+				ctx.Class("foreign-room-event-in-unneeded-slot/left-out")
+				var rest []PDU
+				for _, d := range asDrawn {
+					if d != e {
+						rest = append(rest, d)
+					}
+				}
+				asDrawn = rest
+				continue
+			}
+			kept = append(kept, e)
+		}
+		full = kept
+		rooms[c.Final.Room] = kept
+	}
+	for i := range rooms {
+		if i != c.Final.Room {
+			rooms[i] = lastOnly(rooms[i])
+		}
+	}
 	var neededOnly []PDU
 	for _, e := range full {
 		if isNeeded(e) {
@@ -112,9 +167,22 @@ func c09Check(ctx *vfCtx, c c09Case) {
 	if !ok {
 		return
 	}
+	if len(asDrawn) != len(full) {
+		ctx.Class("state-list-with-replaced-entries")
+		if v, ok := eval("replaced", asDrawn); !ok {
+			return
+		} else if vf, ok := eval("full", full); !ok {
+			return
+		} else if v != vf {
+			ctx.Fail("C09/replaced-entries-change-verdict", "a provider fed %d events of which %d were replaced by later events for the same (type, state_key) gives %s; a provider fed only the %d events it holds gives %s", len(asDrawn), len(asDrawn)-len(full), v, len(full), vf)
+			return
+		}
+	}
 	ctx.Class("verdict/" + base)
-	refAllow, rule := rauth(c.Version, raBuildState(c.Version, roomTrees[c.Final.Room]), finalTree)
-	_ = refAllow
+	rule := "state not judged by the reference"
+	if st := raBuildState(c.Version, roomTrees[c.Final.Room]); raUnjudged(st) == "" {
+		_, rule = rauth(c.Version, st, finalTree) // (only for the messages: which rule decided)
+	}
 	ch := &jseedChooser{c.Seed}
 	// repeated evaluation
 	repeats := 1
@@ -170,6 +238,12 @@ func c09Check(ctx *vfCtx, c c09Case) {
 				changed = true
 			}
 			last = room
+			// Allowed refuses a provider holding events of several rooms before it looks at the event;
+			// state resolution never builds such a provider. The reused checker is held to the same
+			// entry condition, or it would be compared outside what either caller does.
+			if !prov.Valid() {
+				return errorf("authEvents contains events from different rooms")
+			}
 			return actx.allowed(e)
 		}
 		for _, st := range c.Steps {
@@ -293,7 +367,12 @@ func c09GenEvent(t *rapid.T, version string, r c07Room, b c07Built, label string
 		e.Type, e.StateKey = "m.room.topic", raSK("")
 	case 8:
 		e.Type, e.StateKey = "m.room.power_levels", raSK("")
-		e.Content = c08GenNewPL(t, version, r, sender)
+		if raUnjudged(raBuildState(version, b.Auth)) != "" {
+			// (the edit generator works from decodable current levels)
+			e.Content = jobj("users", jobj(sender, jnum(100)), "users_default", jnum(0))
+		} else {
+			e.Content = c08GenNewPL(t, version, r, sender)
+		}
 	default:
 		e.Type, e.StateKey, e.Content = "m.room.join_rules", raSK(""), jobj("join_rule", jstr("public"))
 	}
@@ -349,6 +428,9 @@ func c09Gen(t *rapid.T) c09Case {
 		base.TPI = &tc
 		base.TPISender = rapid.SampledFrom(c07Users).Draw(t, "roomTPISender")
 	}
+	if base.HasPL && rapid.Bool().Draw(t, "plEvents") {
+		base.PL = base.PL.with("events", jobj("m.room.topic", jnum(int64(rapid.SampledFrom([]int{0, 50, 100}).Draw(t, "plTopic"))), "m.room.message", jnum(int64(rapid.SampledFrom([]int{0, 50, 100}).Draw(t, "plMsg")))))
+	}
 	variants := []c07Room{base}
 	nv := rapid.IntRange(0, 2).Draw(t, "nvariants")
 	for i := 0; i < nv; i++ {
@@ -357,7 +439,17 @@ func c09Gen(t *rapid.T) c09Case {
 		for k, m := range base.Members {
 			v.Members[k] = m
 		}
-		switch rapid.IntRange(0, 4).Draw(t, "variantKind") {
+		switch rapid.IntRange(0, 6).Draw(t, "variantKind") {
+		case 5, 6:
+			// power levels that do not decode (a checker that cannot refresh its cached levels must not
+			// go on using parts of the old ones)
+			v.HasPL = true
+			v.PL = rapid.SampledFrom([]jv{
+				jobj("users", jv{K: 'a'}, "events", jobj("m.room.topic", jnum(0))),
+				jobj("users_default", jstr("fifty"), "events", jobj("m.room.topic", jnum(0), "m.room.message", jnum(100))),
+				jobj("events", jstr("x")),
+				jobj("ban", jv{K: 'o'}),
+			}).Draw(t, "brokenPL")
 		case 0:
 			v.JoinRule = rapid.SampledFrom(c07JoinRules).Draw(t, "vjr")
 		case 1:
@@ -428,6 +520,14 @@ func c09Gen(t *rapid.T) c09Case {
 			built = append(built, built[0])
 			c.Rooms = append(c.Rooms, js)
 		}
+	}
+	if rapid.IntRange(0, 7).Draw(t, "foreignAuth") == 0 {
+		// one of the states also holds an event of ANOTHER room (under a tuple of its own or one that is
+		// already there): whatever the order of insertion, the verdict is the same
+		i := rapid.IntRange(0, len(c.Rooms)-1).Draw(t, "foreignRoom")
+		tmp := c07Case{Version: version, Auth: c.Rooms[i]}
+		c07InjectForeign(t, version, &tmp)
+		c.Rooms[i] = tmp.Auth
 	}
 	ns := rapid.IntRange(0, 6).Draw(t, "nsteps")
 	// focused mode: one sender's events only, so that anything a checker remembers about "the last
